@@ -9,8 +9,9 @@ CONSTANTS
     CapN = 0
     Cache = 4096
     Compress = FALSE
+    CapProbe = FALSE
     Debug = TRUE
     HookMode = "panic_end"
 VIEW View
-PROPERTIES HttpEqualsPipe OneTurnPerContinuation CapsHold HookBalanced
+PROPERTIES HttpEqualsPipe OneTurnPerContinuation CapsHold CapReplaces HookBalanced
 CHECK_DEADLOCK FALSE
